@@ -15,10 +15,29 @@
 //! event-handling calls have gone by since (clat = 0: at the next one), and the callbacks run.
 //! `libusb_cancel_transfer` succeeds on in-flight transfers only.
 //!
+//! The events lock: what the OTHER threads of the process do with it is scripted per round of
+//! `poll_completed`'s loop (one `libusb_try_lock_events` call = one round = the next entry of the
+//! lock plan; past the end: `Own`).
+//!  * `Own`: `libusb_try_lock_events` returns 0, the code handles events itself (above).
+//!  * `HeldActive(n)`: it returns 1 (another thread is handling events), `libusb_event_handler_active`
+//!    answers 1, and `libusb_wait_for_event(tv)` returns 0 after `n` virtual microseconds if n < tv:
+//!    the other thread has handled events by then - every transfer of OUR pool that is due or whose
+//!    cancellation latency has run out completes exactly as in a successful
+//!    `libusb_handle_events_locked` call (the callbacks run on the other thread's behalf) - and has
+//!    woken the waiters; with n >= tv the wait times out (returns 1, the clock moves by tv + 1 us,
+//!    nothing of ours was handled).
+//!  * `HeldGone`: it returns 1 because the lock was taken at that instant, but the holder has left
+//!    by the time the waiters lock is held: `libusb_event_handler_active` answers 0.  The protocol
+//!    (libusb_mtasync "threadwait") says: do not wait, go round again.  A `libusb_wait_for_event`
+//!    call in this situation finds nobody to wake it and nobody handling events: it sleeps for the
+//!    whole timeval (the clock moves by tv + 1 us) and nothing is handled; counted in
+//!    `waits_no_handler`.
+//!
 //! Time: the process runs on a VIRTUAL monotonic clock (`clock_gettime(CLOCK_MONOTONIC)` is defined
 //! here, so `std::time::Instant` of the code under test reads it).  It only moves when an
 //! event-handling call finds nothing to complete: like libusb, the call then blocks for the whole
-//! timeval it was given - here by advancing the clock by that timeval (+ 1 us), without sleeping.
+//! timeval it was given - here by advancing the clock by that timeval (+ 1 us), without sleeping -,
+//! and in `libusb_wait_for_event` (above).
 //! `poll_completed`'s deadline therefore passes after exactly one such call, the 1 s time-out of
 //! `Drop for AsyncPool` costs nothing, and every case is deterministic.
 #![allow(non_camel_case_types, non_snake_case, dead_code, clippy::all)]
@@ -26,7 +45,6 @@ use std::collections::VecDeque;
 use std::os::raw::{c_char, c_int, c_uint, c_void};
 use std::sync::atomic::{AtomicU64, Ordering};
 use std::sync::Mutex;
-use std::time::Duration;
 
 pub const TRANSFER_COMPLETED: c_int = 0;
 pub const TRANSFER_CANCELLED: c_int = 3;
@@ -76,11 +94,29 @@ pub struct InFlight {
     pub cancel: bool,
 }
 
+/// What the other threads do with the events lock during one round of `poll_completed`.
+#[derive(Clone, Copy, Debug, PartialEq)]
+pub enum Lock {
+    Own,
+    HeldGone,
+    /// the other handler handles events `n` virtual microseconds after the wait began
+    HeldActive(u64),
+}
+
 pub struct State {
     pub plan: VecDeque<Plan>,
     /// return codes of the coming `libusb_handle_events_locked` calls (past the end: 0)
     pub evplan: VecDeque<c_int>,
     pub event_calls: usize,
+    /// the coming rounds of `poll_completed` (past the end: Own)
+    pub lockplan: VecDeque<Lock>,
+    /// the round that is under way (set by `libusb_try_lock_events`)
+    pub round: Lock,
+    pub trylock_calls: usize,
+    pub trylock_failed: usize,
+    pub waits: usize,
+    /// `libusb_wait_for_event` calls made while no event handler was active
+    pub waits_no_handler: usize,
     pub inflight: Vec<InFlight>,
     pub submit_calls: usize,
     pub accepted: usize,
@@ -94,6 +130,12 @@ pub static STATE: Mutex<State> = Mutex::new(State {
     plan: VecDeque::new(),
     evplan: VecDeque::new(),
     event_calls: 0,
+    lockplan: VecDeque::new(),
+    round: Lock::Own,
+    trylock_calls: 0,
+    trylock_failed: 0,
+    waits: 0,
+    waits_no_handler: 0,
     inflight: Vec::new(),
     submit_calls: 0,
     accepted: 0,
@@ -110,11 +152,29 @@ pub fn state() -> std::sync::MutexGuard<'static, State> {
     STATE.lock().unwrap_or_else(|e| e.into_inner())
 }
 
-pub fn reset(plan: Vec<Plan>, evplan: Vec<c_int>) {
+/// an entry of the lock plan as the case line gives it: 1 = HeldGone, 2 + n = HeldActive(n), else Own
+pub fn lock_of(tok: i64) -> Lock {
+    if tok == 1 {
+        Lock::HeldGone
+    } else if tok >= 2 {
+        Lock::HeldActive((tok - 2) as u64)
+    } else {
+        Lock::Own
+    }
+}
+
+pub fn reset(plan: Vec<Plan>, evplan: Vec<c_int>, lockplan: Vec<Lock>) {
     let mut st = state();
     st.plan = plan.into_iter().collect();
     st.evplan = evplan.into_iter().collect();
     st.event_calls = 0;
+    st.lockplan = lockplan.into_iter().collect();
+    st.round = Lock::Own;
+    st.trylock_calls = 0;
+    st.trylock_failed = 0;
+    st.waits = 0;
+    st.waits_no_handler = 0;
+    CLOCK0_NS.store(VCLOCK_NS.load(Ordering::SeqCst), Ordering::SeqCst);
     st.inflight.clear();
     st.submit_calls = 0;
     st.accepted = 0;
@@ -554,7 +614,16 @@ pub extern "C" fn libusb_cancel_transfer(transfer: *mut Transfer) -> c_int {
 
 #[no_mangle]
 pub extern "C" fn libusb_try_lock_events(_ctx: *mut c_void) -> c_int {
-    0
+    let mut st = state();
+    st.trylock_calls += 1;
+    let round = st.lockplan.pop_front().unwrap_or(Lock::Own);
+    st.round = round;
+    if round == Lock::Own {
+        0
+    } else {
+        st.trylock_failed += 1;
+        1
+    }
 }
 #[no_mangle]
 pub extern "C" fn libusb_lock_events(_ctx: *mut c_void) {}
@@ -566,27 +635,102 @@ pub extern "C" fn libusb_event_handling_ok(_ctx: *mut c_void) -> c_int {
 }
 #[no_mangle]
 pub extern "C" fn libusb_event_handler_active(_ctx: *mut c_void) -> c_int {
-    0
+    match state().round {
+        Lock::HeldActive(_) => 1,
+        _ => 0,
+    }
 }
 #[no_mangle]
 pub extern "C" fn libusb_lock_event_waiters(_ctx: *mut c_void) {}
 #[no_mangle]
 pub extern "C" fn libusb_unlock_event_waiters(_ctx: *mut c_void) {}
+
+fn timeval_us(tv: *const TimeVal) -> u64 {
+    if tv.is_null() {
+        0
+    } else {
+        unsafe { ((*tv).tv_sec.max(0) as u64).saturating_mul(1_000_000).saturating_add((*tv).tv_usec.max(0) as u64) }
+    }
+}
+
+/// Returns 0 when the waiters were woken (the other event handler has handled events), 1 when the
+/// timeval ran out.  With no active event handler nobody wakes the waiters and nobody handles events.
 #[no_mangle]
-pub extern "C" fn libusb_wait_for_event(_ctx: *mut c_void, _tv: *const TimeVal) -> c_int {
-    std::thread::sleep(Duration::from_micros(200));
-    0
+pub unsafe extern "C" fn libusb_wait_for_event(_ctx: *mut c_void, tv: *const TimeVal) -> c_int {
+    let us = timeval_us(tv);
+    let round = {
+        let mut st = state();
+        st.waits += 1;
+        st.round
+    };
+    match round {
+        Lock::HeldActive(n) if n < us => {
+            advance_clock_ns(n.saturating_mul(1000));
+            let done = complete_ready();
+            for t in done {
+                if let Some(cb) = (*t).callback {
+                    cb(t);
+                }
+            }
+            0
+        }
+        Lock::HeldActive(_) => {
+            advance_clock_ns(us.saturating_add(1).saturating_mul(1000));
+            1
+        }
+        _ => {
+            state().waits_no_handler += 1;
+            advance_clock_ns(us.saturating_add(1).saturating_mul(1000));
+            1
+        }
+    }
 }
 #[no_mangle]
 pub extern "C" fn libusb_handle_events_completed(_ctx: *mut c_void, _completed: *mut c_int) -> c_int {
     0
 }
 
+/// Events are handled (by this thread or by the other event handler): every in-flight transfer that
+/// is due or whose cancellation latency has run out completes; the caller runs the callbacks.
+unsafe fn complete_ready() -> Vec<*mut Transfer> {
+    let mut done: Vec<*mut Transfer> = Vec::new();
+    let mut st = state();
+    let now = EPOCH.load(Ordering::SeqCst);
+    let mut i = 0;
+    while i < st.inflight.len() {
+        let cancelled = st.inflight[i].cancel && st.inflight[i].clat == 0;
+        if cancelled || st.inflight[i].due < now {
+            let f = st.inflight.remove(i);
+            let t = f.ptr as *mut Transfer;
+            if cancelled {
+                (*t).status = TRANSFER_CANCELLED;
+                (*t).actual_length = 0;
+            } else {
+                (*t).status = f.status;
+                if f.status == TRANSFER_COMPLETED {
+                    let bytes = pattern(f.index, f.len);
+                    std::ptr::copy_nonoverlapping(bytes.as_ptr(), (*t).buffer, bytes.len());
+                    (*t).actual_length = f.len as c_int;
+                } else {
+                    (*t).actual_length = 0;
+                }
+            }
+            st.completed += 1;
+            done.push(t);
+        } else {
+            if st.inflight[i].cancel {
+                st.inflight[i].clat -= 1;
+            }
+            i += 1;
+        }
+    }
+    done
+}
+
 /// One event-handling call: the next entry of the event plan; when it is 0 complete every in-flight
 /// transfer that is due or whose cancellation latency has run out, then run the callbacks.
 #[no_mangle]
 pub unsafe extern "C" fn libusb_handle_events_locked(_ctx: *mut c_void, tv: *const TimeVal) -> c_int {
-    let mut done: Vec<*mut Transfer> = Vec::new();
     {
         let mut st = state();
         st.event_calls += 1;
@@ -594,40 +738,11 @@ pub unsafe extern "C" fn libusb_handle_events_locked(_ctx: *mut c_void, tv: *con
         if code != 0 {
             return code;
         }
-        let now = EPOCH.load(Ordering::SeqCst);
-        let mut i = 0;
-        while i < st.inflight.len() {
-            let cancelled = st.inflight[i].cancel && st.inflight[i].clat == 0;
-            if cancelled || st.inflight[i].due < now {
-                let f = st.inflight.remove(i);
-                let t = f.ptr as *mut Transfer;
-                if cancelled {
-                    (*t).status = TRANSFER_CANCELLED;
-                    (*t).actual_length = 0;
-                } else {
-                    (*t).status = f.status;
-                    if f.status == TRANSFER_COMPLETED {
-                        let bytes = pattern(f.index, f.len);
-                        std::ptr::copy_nonoverlapping(bytes.as_ptr(), (*t).buffer, bytes.len());
-                        (*t).actual_length = f.len as c_int;
-                    } else {
-                        (*t).actual_length = 0;
-                    }
-                }
-                st.completed += 1;
-                done.push(t);
-            } else {
-                if st.inflight[i].cancel {
-                    st.inflight[i].clat -= 1;
-                }
-                i += 1;
-            }
-        }
     }
+    let done = complete_ready();
     if done.is_empty() {
         // nothing happened: libusb would have blocked for the whole timeval
-        let us = if tv.is_null() { 0 } else { ((*tv).tv_sec.max(0) as u64).saturating_mul(1_000_000).saturating_add((*tv).tv_usec.max(0) as u64) };
-        advance_clock_ns(us.saturating_add(1).saturating_mul(1000));
+        advance_clock_ns(timeval_us(tv).saturating_add(1).saturating_mul(1000));
     }
     for t in done {
         if let Some(cb) = (*t).callback {
@@ -656,6 +771,14 @@ const CLOCK_MONOTONIC: c_int = 1;
 
 /// nanoseconds of the virtual CLOCK_MONOTONIC
 static VCLOCK_NS: AtomicU64 = AtomicU64::new(1_000_000_000_000);
+
+/// the virtual clock when the current case began
+static CLOCK0_NS: AtomicU64 = AtomicU64::new(1_000_000_000_000);
+
+/// virtual microseconds gone by since the case began
+pub fn case_clock_us() -> u64 {
+    (VCLOCK_NS.load(Ordering::SeqCst) - CLOCK0_NS.load(Ordering::SeqCst)) / 1000
+}
 
 pub fn advance_clock_ns(ns: u64) {
     VCLOCK_NS.fetch_add(ns, Ordering::SeqCst);
